@@ -1143,6 +1143,9 @@ func (t *trzszTransfer) recvFileName(path string, progress progressCallback) (fi
 		fileName = srcFile.getFileName()
 		file, localName, err = t.createDirOrFile(path, srcFile, true)
 	} else {
+		if !isValidFileName(fileName) {
+			return nil, "", simpleTrzszError("Invalid file name: %s", fileName)
+		}
 		file, localName, err = t.createFile(path, fileName, true, nil)
 	}
 	if err != nil {
